@@ -51,6 +51,10 @@ func TestC06(t *testing.T) {
 	}
 	runProperty(c, "run", c.N(240, 6000), 0, func(rt *rapid.T) *RunCase {
 		f := prof.File(rt, "prog.json")
+		if rapid.IntRange(0, 3).Draw(rt, "collidingdefs") == 0 {
+			addCollidingDefs(rt, c, f, "string")
+		}
+		addOptionalDefaults(rt, c, f, 0.25, o)
 		cfg := baseConfig()
 		cs := caseOf(cfg, []string{f.RelPath}, f)
 		jobs := buildJobs(rt, c, f.Root, progRoot, plan, o, cs)
